@@ -53,42 +53,52 @@ theorem atomVars_eq (e : Expr) (x : String) (hx : x ≠ "")
   | brace lb e rb => simpa [atomVars, freeVars] using argVars_eq e x hx
   | _ => simp_all [atomVars, freeVars]
 
+/-- a frame without rows is refused, whatever the action -/
+theorem C09_empty_refused (action : String) (used : List String) (f : Frame) (h : f.nrows = 0) :
+    naStep Spec.C09.documentedActions action used f = .error .valueError := by
+  simp [naStep, h]
+
 /-- the NA step refuses every action that is not documented -/
 theorem C09_action_refused (action : String) (used : List String) (f : Frame)
     (h : Spec.C09.documentedActions.contains action = false) :
     naStep Spec.C09.documentedActions action used f = .error .valueError := by
   simp only [naStep, h, Bool.not_false, if_true]
+  split <;> rfl
 
 /-- `error`: raises iff some selected row is incomplete -/
-theorem C09_error_iff (used : List String) (f : Frame) :
+theorem C09_error_iff (used : List String) (f : Frame) (hn : f.nrows ≠ 0) :
     (naStep Spec.C09.documentedActions "error" used f = .error .valueError) ↔
-      (incompleteRows (selectCols used f)).any id = true := by
+      (incompleteRows f.nrows (selectCols used f)).any id = true := by
   simp only [naStep, Spec.C09.documentedActions]
+  have h0 : (f.nrows == 0) = false := by simpa using hn
   have h1 : ["drop", "error", "pass"].contains "error" = true := by decide
   have h2 : ("error" == "pass") = false := by decide
   have h3 : ("error" == "drop") = false := by decide
-  simp only [h1, Bool.not_true, Bool.false_eq_true, if_false, h2, h3]
+  simp only [h0, h1, Bool.not_true, Bool.false_eq_true, if_false, h2, h3]
   split <;> simp_all
 
 /-- `drop`: the design frame is the selected columns restricted to the complete rows; nothing
-else changes (order kept) -/
-theorem C09_drop (used : List String) (f : Frame) :
+else changes (order kept); refused when no row is complete -/
+theorem C09_drop (used : List String) (f : Frame) (hn : f.nrows ≠ 0) :
     naStep Spec.C09.documentedActions "drop" used f =
-      .ok (if (incompleteRows (selectCols used f)).any id
-           then keepRows (selectCols used f) ((incompleteRows (selectCols used f)).map (!·))
-           else selectCols used f) := by
+      (let inc := incompleteRows f.nrows (selectCols used f)
+       if inc.any id then
+         (if inc.all id then .error .valueError
+          else .ok (keepRows (selectCols used f) (inc.map (!·))))
+       else .ok (selectCols used f)) := by
   simp only [naStep, Spec.C09.documentedActions]
+  have h0 : (f.nrows == 0) = false := by simpa using hn
   have h1 : ["drop", "error", "pass"].contains "drop" = true := by decide
   have h2 : ("drop" == "pass") = false := by decide
-  simp only [h1, Bool.not_true, Bool.false_eq_true, if_false, h2, beq_self_eq_true, if_true]
-  split <;> rfl
+  simp only [h0, h1, Bool.not_true, Bool.false_eq_true, if_false, h2, beq_self_eq_true, if_true]
 
 /-- `pass`: all rows are kept, in order -/
-theorem C09_pass (used : List String) (f : Frame) :
+theorem C09_pass (used : List String) (f : Frame) (hn : f.nrows ≠ 0) :
     naStep Spec.C09.documentedActions "pass" used f = .ok (selectCols used f) := by
   simp only [naStep, Spec.C09.documentedActions]
+  have h0 : (f.nrows == 0) = false := by simpa using hn
   have h1 : ["drop", "error", "pass"].contains "pass" = true := by decide
-  simp only [h1, Bool.not_true, Bool.false_eq_true, if_false, beq_self_eq_true, if_true]
+  simp only [h0, h1, Bool.not_true, Bool.false_eq_true, if_false, beq_self_eq_true, if_true]
   split <;> rfl
 
 /-- missing values in unused columns are ignored: the mask only looks at selected columns -/
@@ -98,8 +108,8 @@ theorem C09_unused_ignored (used : List String) (f : Frame) (c : Column) (hc : u
     List.filter_nil, List.append_nil]
 
 theorem keep_length {α} (xs : List α) (keep : List Bool) (h : xs.length = keep.length) :
-    ((xs.zip keep).filterMap (fun p => if p.2 then some p.1 else none)).length
-      = (keep.filter id).length := by
+    (kept xs keep).length = (keep.filter id).length := by
+  unfold kept
   induction xs generalizing keep with
   | nil => cases keep <;> simp_all
   | cons x xs ih =>
@@ -121,6 +131,192 @@ theorem C09_row_alignment (f : Frame) (keep : List Bool)
     simp only [keepRows, List.mem_map] at hc'
     obtain ⟨c, hc, rfl⟩ := hc'
     exact keep_length c.cells keep (hl c hc)
+
+/-! ### `drop` = the run on the frame from which the incomplete rows were removed -/
+
+theorem selectCols_keepRows (used : List String) (f : Frame) (keep : List Bool) :
+    selectCols used (keepRows f keep) = keepRows (selectCols used f) keep := by
+  simp only [selectCols, keepRows, List.filter_map]
+  congr 1
+
+/-- every cell that survives the mask sits at a position where the mask is true -/
+theorem mem_kept {α} (xs : List α) (keep : List Bool) (x : α) (h : x ∈ kept xs keep) :
+    ∃ i : Nat, xs[i]? = some x ∧ keep[i]? = some true := by
+  unfold kept at h
+  induction xs generalizing keep with
+  | nil => simp at h
+  | cons y ys ih =>
+    cases keep with
+    | nil => simp at h
+    | cons k ks =>
+      simp only [List.zip_cons_cons, List.filterMap_cons] at h
+      cases k with
+      | true =>
+        simp only [if_true, List.mem_cons] at h
+        rcases h with rfl | h
+        · exact ⟨0, by simp, by simp⟩
+        · obtain ⟨i, h1, h2⟩ := ih ks h
+          exact ⟨i + 1, by simpa using h1, by simpa using h2⟩
+      | false =>
+        simp only [Bool.false_eq_true, if_false] at h
+        obtain ⟨i, h1, h2⟩ := ih ks h
+        exact ⟨i + 1, by simpa using h1, by simpa using h2⟩
+
+theorem kept_all_true {α} (xs : List α) (keep : List Bool) (hl : xs.length = keep.length)
+    (ht : ∀ b ∈ keep, b = true) : kept xs keep = xs := by
+  unfold kept
+  induction xs generalizing keep with
+  | nil => cases keep <;> simp_all
+  | cons y ys ih =>
+    cases keep with
+    | nil => simp at hl
+    | cons k ks =>
+      have hk : k = true := ht k (by simp)
+      subst hk
+      simp only [List.zip_cons_cons, List.filterMap_cons, if_true]
+      rw [ih ks (by simpa using hl) (fun b hb => ht b (by simp [hb]))]
+
+/-- after removing the incomplete rows no selected cell is missing -/
+theorem no_missing_after_drop (n : Nat) (sel : Frame) (c : Column) (hc : c ∈ sel) (x : Cell)
+    (hx : x ∈ kept c.cells ((incompleteRows n sel).map (!·))) : cellMissing x = false := by
+  obtain ⟨i, h1, h2⟩ := mem_kept _ _ _ hx
+  simp only [incompleteRows, List.map_map, List.getElem?_map, Option.map_eq_some_iff] at h2
+  obtain ⟨r, hr, hb⟩ := h2
+  have hri : r = i := by
+    have := List.getElem?_range (n := n) (i := i)
+    cases hlt : decide (i < n) with
+    | true =>
+      have hlt' : i < n := by simpa using hlt
+      simp [List.getElem?_range hlt'] at hr
+      exact hr.symm
+    | false =>
+      have hge : n ≤ i := by simpa using hlt
+      have : (List.range n)[i]? = none := by simp [hge]
+      simp [this] at hr
+  subst hri
+  simp only [Function.comp, Bool.not_eq_true', List.any_eq_false] at hb
+  have := hb c hc
+  simpa [List.getD, h1] using this
+
+theorem incompleteRows_after_drop (n m : Nat) (sel : Frame)
+    (hl : ∀ c ∈ sel, (kept c.cells ((incompleteRows n sel).map (!·))).length = m) :
+    (incompleteRows m (keepRows sel ((incompleteRows n sel).map (!·)))).any id = false := by
+  simp only [incompleteRows, List.any_map, List.any_eq_false, List.mem_range, Function.comp, id]
+  intro r hr
+  simp only [keepRows, List.any_map, Function.comp, Bool.not_eq_true, List.any_eq_false]
+  intro c hc
+  have hlen := hl c hc
+  have hmem : (kept c.cells ((incompleteRows n sel).map (!·))).getD r .na
+      ∈ kept c.cells ((incompleteRows n sel).map (!·)) := by
+    have hr' : r < (kept c.cells ((incompleteRows n sel).map (!·))).length := by omega
+    simp only [List.getD_eq_getElem?_getD, List.getElem?_eq_getElem hr', Option.getD_some]
+    exact List.getElem_mem _
+  have := no_missing_after_drop n sel c hc _ hmem
+  simpa [incompleteRows] using this
+
+theorem nrows_keepRows (f : Frame) (keep : List Bool) (hw : ∀ c ∈ f, c.cells.length = keep.length)
+    (hf : f ≠ []) : (keepRows f keep).nrows = (keep.filter id).length := by
+  cases f with
+  | nil => exact absurd rfl hf
+  | cons c cs =>
+    simp only [keepRows, List.map_cons, Frame.nrows]
+    exact keep_length c.cells keep (hw c (by simp))
+
+/-- **drop is the run on the filtered frame.**  For a well-formed frame (all columns have
+`f.nrows` cells), `na_action='drop'` gives exactly what the same call gives on the frame from which
+the rows with a missing value in a used column were removed — including the refusal when no row
+is complete (the filtered frame is then empty, which is refused too). -/
+theorem C09_drop_eq_filtered (used : List String) (f : Frame)
+    (hw : ∀ c ∈ f, c.cells.length = f.nrows) :
+    naStep Spec.C09.documentedActions "drop" used f =
+      naStep Spec.C09.documentedActions "drop" used
+        (keepRows f ((incompleteRows f.nrows (selectCols used f)).map (!·))) := by
+  generalize hkeep : (incompleteRows f.nrows (selectCols used f)).map (!·) = keep
+  have hklen : keep.length = f.nrows := by subst hkeep; simp [incompleteRows]
+  have hw' : ∀ c ∈ f, c.cells.length = keep.length := fun c hc => by rw [hklen]; exact hw c hc
+  by_cases hn : f.nrows = 0
+  · -- no rows: both sides refused
+    have h2 : (keepRows f keep).nrows = 0 := by
+      cases f with
+      | nil => rfl
+      | cons c cs =>
+        rw [nrows_keepRows _ _ hw' (by simp)]
+        have : keep = [] := List.eq_nil_of_length_eq_zero (by omega)
+        simp [this]
+    rw [C09_empty_refused _ _ _ hn, C09_empty_refused _ _ _ h2]
+  · have hf : f ≠ [] := by intro h; subst h; exact hn rfl
+    have hnr : (keepRows f keep).nrows = (keep.filter id).length := nrows_keepRows _ _ hw' hf
+    rw [C09_drop used f hn]
+    simp only
+    by_cases hany : (incompleteRows f.nrows (selectCols used f)).any id = true
+    · rw [if_pos hany]
+      by_cases hall : (incompleteRows f.nrows (selectCols used f)).all id = true
+      · -- every row incomplete: nothing is kept, the filtered frame is empty
+        rw [if_pos hall]
+        have : (keep.filter id).length = 0 := by
+          subst hkeep
+          simp only [List.length_eq_zero_iff, List.filter_eq_nil_iff, List.mem_map, id]
+          rintro b ⟨a, ha, rfl⟩
+          have := (List.all_eq_true.mp hall) a ha
+          simp_all
+        rw [C09_empty_refused _ _ _ (by omega)]
+      · rw [if_neg hall]
+        have hpos : (keepRows f keep).nrows ≠ 0 := by
+          rw [hnr]
+          subst hkeep
+          have hall' : ∃ a ∈ incompleteRows f.nrows (selectCols used f), a = false := by
+            simpa [List.all_eq_true] using hall
+          obtain ⟨a, ha, hne⟩ := hall'
+          have : (!a) ∈ ((incompleteRows f.nrows (selectCols used f)).map (!·)).filter id := by
+            simp only [List.mem_filter, List.mem_map, id]
+            exact ⟨⟨a, ha, rfl⟩, by simp [hne]⟩
+          intro h0
+          rw [List.length_eq_zero_iff] at h0
+          simp [h0] at this
+        rw [C09_drop used _ hpos]
+        simp only
+        rw [selectCols_keepRows, hnr]
+        have hsel : ∀ c ∈ selectCols used f, (kept c.cells keep).length = (keep.filter id).length := by
+          intro c hc
+          exact keep_length _ _ (hw' c (List.mem_filter.mp hc).1)
+        have hnone := incompleteRows_after_drop f.nrows (keep.filter id).length (selectCols used f)
+          (by rw [hkeep]; exact hsel)
+        rw [hkeep] at hnone
+        rw [if_neg (by simpa using hnone), hkeep]
+    · -- no incomplete row: nothing is removed
+      rw [if_neg hany]
+      have hall : ∀ b ∈ keep, b = true := by
+        subst hkeep
+        intro b hb
+        simp only [List.mem_map] at hb
+        obtain ⟨a, ha, rfl⟩ := hb
+        have : ¬ (a = true) := fun h => hany (List.any_eq_true.mpr ⟨a, ha, by simpa using h⟩)
+        simpa using this
+      have hsame : keepRows f keep = f := by
+        simp only [keepRows]
+        conv => rhs; rw [← List.map_id f]
+        apply List.map_congr_left
+        intro c hc
+        simp [kept_all_true c.cells keep (hw' c hc) hall]
+      rw [hsame, C09_drop used f hn]
+      simp only
+      rw [if_neg hany]
+
+/-- non-vacuity: a well-formed frame with a complete and an incomplete row in a used column, an
+unused column with a missing value, and the all-incomplete frame (refused on both sides) -/
+def exFrame : Frame :=
+  [⟨"x", .string, [.str "a", .na, .str "c"]⟩, ⟨"u", .string, [.na, .str "p", .str "q"]⟩]
+
+example : (∀ c ∈ exFrame, c.cells.length = exFrame.nrows) := by decide
+
+example :
+    (match naStep Spec.C09.documentedActions "drop" ["x"] exFrame with
+     | .ok g => g.map (fun c => (c.name, c.cells)) == [("x", [.str "a", .str "c"])]
+     | .error _ => false) = true ∧
+    (match naStep Spec.C09.documentedActions "drop" ["u"] [⟨"u", .string, [.na, .na]⟩] with
+     | .ok _ => false
+     | .error _ => true) = true := by
+  decide
 
 theorem actions_tie : Generated.naActions = Spec.C09.documentedActions := by decide
 
